@@ -16,7 +16,7 @@ ENGINES = [
      "kind_free_text": "async_mutex on a manually polled io_context vs FIFO model, exhaustive short sequences + random, ASan+UBSan"},
     {"name": "codec_probe", "path": "src/probes/codec_probe.cpp", "serves_properties": ["C17", "C18", "C19"],
      "kind_free_text": "library encoders/decoders vs independent reference codec (src/ref), guard-page placement of hostile packets, ASan+UBSan"},
-    {"name": "simcheck", "path": "src/sim", "serves_properties": ["C01", "C02", "C03", "C04", "C05", "C06", "C07", "C08", "C09", "C10", "C11", "C12", "C13", "C14", "C15", "C16", "C17", "C19", "C20"],
+    {"name": "simcheck", "path": "src/sim", "serves_properties": ["C01", "C02", "C03", "C04", "C05", "C06", "C07", "C08", "C09", "C10", "C11", "C12", "C13", "C14", "C15", "C16", "C17", "C18", "C19", "C20"],
      "kind_free_text": "the real mqtt_client instantiated on a simulated stream in virtual time (timer/clock token interposition, no library edit beyond the resolve hook), a protocol-level broker model on the reference codec, fault plans, crash-point and idle-point sweeps, event-history monitors; clang ASan+UBSan"},
 ]
 
@@ -39,7 +39,7 @@ CLAIMS = {
             "independent reference codec is trusted and self-checked",
             "runtime monitoring: independent-decoder oracle over enumerated/generated arguments, ASan/UBSan", "codec_probe"),
     "C18": ("exploration",
-            "independent encoder output (all property-presence subsets, all short forms, boundary values) goes through the library decoders exactly as the client calls them; fields must be equal and re-encoding must preserve contents",
+            "independent encoder output (all property-presence subsets, all short forms, boundary values) goes through the library decoders exactly as the client calls them; fields must be equal and re-encoding must preserve contents; plus in situ: on connections of the real client that carried only conformant broker packets, no packet may be answered as malformed",
             "independent reference codec is trusted and self-checked on every case",
             "runtime monitoring: round-trip differential oracle over enumerated/generated packets, ASan/UBSan", "codec_probe"),
     "C19": ("exploration",
